@@ -61,7 +61,7 @@ class Run:
 
     def __init__(self, c, variant='api', pool='plain', seed=0, ignore_contract=False, metas=True,
                  monitor=False, sc=None, names=None, rename=None, reimport=False, copy_into=False,
-                 manual_execute=False, shadow=False, epoch=0, device=False, moving=False):
+                 manual_execute=False, shadow=False, epoch=0, device=False, moving=False, running=False):
         self.c = c
         self.shadow = None
         self.manual_execute = manual_execute
@@ -69,6 +69,8 @@ class Run:
         self.broken = ''
         self.interp = None
         self.moving = None
+        self.running = False
+        self.wall = 1000
         self.base = 0
         self.listener = self.listener2 = self.mon = None
         self.opt = {'ignore': bool(ignore_contract), 'metas': bool(metas)}
@@ -114,6 +116,20 @@ class Run:
             from probes import MovingClock
             self.moving = MovingClock(epoch)
             self.interp = Interpreter(sc, initial_context=ctx, ignore_contract=ignore_contract, clock=self.moving)
+        elif running:
+            # a SimulatedClock in real-time mode (start()ed) over a wall clock the harness controls: 'adv' lets real
+            # time pass instead of assigning clock.time
+            import probes as _pr
+            import sismic.clock.clock as _cm
+            from sismic.clock import SimulatedClock
+            _cm.time = _pr.fake_wall
+            self.running = True
+            _pr.WALL[0] = self.wall
+            clk = SimulatedClock()
+            if epoch:
+                clk.time = epoch
+            clk.start()
+            self.interp = Interpreter(sc, initial_context=ctx, ignore_contract=ignore_contract, clock=clk)
         elif epoch:
             from sismic.clock import SimulatedClock
             clk = SimulatedClock()
@@ -254,6 +270,9 @@ class Run:
 
     def _call(self, h):
         it = self.interp
+        if self.running:
+            import probes as _pr
+            _pr.WALL[0] = self.wall
         op = h['op']
         ntr = len(self.c['trans'])
         gv = [bool(v) for v in h.get('gv', [])] or [False] * ntr
@@ -291,7 +310,11 @@ class Run:
                     evo = self.evcache[key] = Event(realize.ev_name(o['ev']), **kw)
                 it.queue(evo)
             elif op == 'adv':
-                it.clock.time += h.get('d', 0)
+                if self.running:
+                    self.wall += h.get('d', 0)
+                    _pr.WALL[0] = self.wall
+                else:
+                    it.clock.time += h.get('d', 0)
             elif op == 'exec':
                 if self.moving is not None:
                     self.moving.arm()
@@ -378,6 +401,9 @@ def monitor_chart():
 def fork_run(r, mode):
     """A Run around a pickled/deep-copied snapshot of r's interpreter (C18)."""
     r2 = copy.copy(r)
+    if r.running:
+        import probes as _pr
+        _pr.WALL[0] = r.wall
     try:
         if mode == 'pickle':
             it2 = pickle.loads(pickle.dumps(r.interp))
